@@ -127,7 +127,7 @@ def main():
         "engines": [{"name": "dsim", "path": "/verif/dsim", "serves_properties": sorted(CLAIMS), "kind_free_text": "deterministic simulator: seeded scenario generator, per-hash-seed worker processes, fs/clock/channel seams, reference models, structural shrinker, replay"}],
         "checks": checks,
         "not_applicable": na,
-        "notes": "Genuine defects repaired in /repo are listed in known_findings.json (fixed entries suppress nothing). History / usage / fault dimensions added after the independent seeded-change rounds (iterable and buffer kinds, handler kinds, mtime policy, pre-reads, in-place revisions, hostile clients, result freshness) are listed in DESIGN.md section 9.2; an exception raised inside the code under test while a check queries it is reported as a violation of the check's crash oracle.",
+        "notes": "Genuine defects repaired in /repo are listed in known_findings.json (fixed entries suppress nothing). History / usage / fault dimensions added after the independent seeded-change rounds (iterable and buffer kinds, handler kinds, mtime policy, pre-reads, in-place revisions, hostile clients, result freshness) are listed in DESIGN.md section 9.2; an exception raised inside the code under test while a check queries it is reported as a violation of the check's crash oracle. Host-process configuration is part of every schedule: DEBUG logging with a formatting handler and warnings-as-errors around library calls (a function of the scenario), one worker interpreter in four under python -O (a function of the recorded hash seed), checkout directories whose names hold glob / regex / shell metacharacters. Known findings (reported as KNOWN-FINDING, exit 0): F5 (C17), F7b (C10), F20 (C18).",
     }
     json.dump(m, open(os.path.join(HERE, "MANIFEST.json"), "w"), indent=1)
     print("claimed", len(checks), "not_applicable", len(na))
